@@ -80,7 +80,9 @@ Definition chk (s : state) : list Z :=
     implb' (negb (stopping s) && negb (rejoin_needed s)) (hb_running s);                           (* K14 *)
     implb' (isSome (start_d s) && negb (stopping s) && negb (stop_requested s) && negb (escaped s)) (progressb s);   (* K15 *)
     Nat.leb (length (filter has_s2 (stops s))) 1;                                                  (* K16 *)
-    implb' (stop_requested s) (negb (nilb (stops s)) || stopping s)                                (* K17 *)
+    implb' (stop_requested s) (negb (nilb (stops s)) || stopping s);                               (* K17 *)
+    implb' (stopping s) (negb (rejoin_needed s));                                                  (* j11 *)
+    noneb has_s1 (stops s) || noneb adv (gens s)                                                   (* j14 *)
   ].
 
 Fixpoint chk_from (s : state) (evs : list event) : list Z :=
